@@ -26,6 +26,9 @@ func c14TypeMap(kind string) map[string]reflect.Type {
 	switch kind {
 	case "known":
 		for _, t := range zooTypes {
+			if t == reflect.TypeOf(Collide{}) {
+				continue // two Go types under one wire name: which one the extracted map holds depends on Go's map iteration order
+			}
 			if t.Kind() == reflect.Struct {
 				m, _ := hessian.ExtractTypeNameMap(reflect.New(t).Interface())
 				for k, v := range m {
@@ -68,6 +71,8 @@ func c14TypeMap(kind string) map[string]reflect.Type {
 	return tm
 }
 
+var lastDecoded interface{}
+
 // ---- worker: one case per line "entry tmkind hex" -> "outcome consumed alloc_bytes micros"
 func workerMain() {
 	hessian.SetLogger(silent{})
@@ -99,7 +104,7 @@ func workerMain() {
 			case "Decode":
 				_, e = hessian.NewDecoder(nil, tm).Decode(bs)
 			case "ReadFrom":
-				_, e = hessian.NewDecoder(nil, tm).ReadFrom(rd)
+				lastDecoded, e = hessian.NewDecoder(nil, tm).ReadFrom(rd)
 			case "ReadObject": // streaming: read values until the first error (at most 64)
 				d := hessian.NewDecoder(rd, tm)
 				for i := 0; i < 64 && e == nil; i++ {
@@ -118,7 +123,13 @@ func workerMain() {
 		})
 		el := time.Since(t0)
 		runtime.ReadMemStats(&ms1)
-		fmt.Fprintf(out, "%s %d %d %d\n", o, rd.pos, ms1.TotalAlloc-ms0.TotalAlloc, el.Microseconds())
+		canon := "-"
+		if f[0] == "ReadFrom" && o == oOK && len(bs) <= 3000 {
+			if o2, _ := guard(func() error { canon = dvalString(lastDecoded); return nil }); o2 != oOK {
+				canon = "-"
+			}
+		}
+		fmt.Fprintf(out, "%s %d %d %d %s\n", o, rd.pos, ms1.TotalAlloc-ms0.TotalAlloc, el.Microseconds(), strings.ReplaceAll(canon, " ", "\x01"))
 		out.Flush()
 	}
 }
@@ -167,7 +178,7 @@ func (w *worker) run(entry, tm string, bs []byte, limit time.Duration) (res stri
 			return "crash", nil
 		}
 		f := strings.Fields(l)
-		if len(f) != 4 {
+		if len(f) != 5 {
 			return "crash", nil
 		}
 		return f[0], f
@@ -352,6 +363,14 @@ func c14One(c *ctx, w **worker, entry, tm string, bs []byte, label string) {
 	case "panic":
 		c.fail("decode panics", in, fmt.Sprintf("%d bytes of input", len(bs)), c14Class(res, bs))
 		return
+	}
+	if entry == "ReadFrom" && len(bs) <= 3000 && (res == "err" || f[4] != "-") {
+		ans := "err"
+		if res == "ok" {
+			ans = "ok " + strings.ReplaceAll(f[4], "\x01", " ") + " " + f[1]
+		}
+		tms, tes := typeMapStr(c14TypeMap(tm))
+		c.corr("dec "+tes+" "+tms+" "+hx(bs), ans)
 	}
 	alloc, _ := strconv.ParseInt(f[2], 10, 64)
 	us, _ := strconv.ParseInt(f[3], 10, 64)
